@@ -453,6 +453,12 @@ def binary_BigEndian_Uint16 : List UInt8 → M UInt16
   | b0 :: b1 :: _ => pure ((b0.toUInt16 <<< 8) ||| b1.toUInt16)
   | _ => throw .index
 
+/-- `_, ok := err.(T)` for a struct type `T` of the module used as an error: errors of such a type carry the type's name -/
+def errIsType (e : Option Err) (name : String) : Bool :=
+  match e with
+  | some x => x.fn == name
+  | none => false
+
 /-- `out, err := aead.Open(nil, …)`: on failure Go's AEADs return nil together with the error -/
 def nilOnErr (r : List UInt8 × Option Err) : List UInt8 × Option Err := (if r.2 == none then r.1 else [], r.2)
 
